@@ -55,6 +55,7 @@ func init() {
 		ex.setBool("c14CollectShape", okCollect, true, "collection loop: failures are skipped, a reply that is not the last is skipped unless its rcode is NOERROR or NXDOMAIN, the context ends the call")
 		c14ConstructionFacts(ex, rel)
 		c14WrapperFacts(ex)
+		c14InstallFacts(ex, rel)
 		qc := ex.fn(rel, "Forward", "QuickConfigureExec")
 		if qc != nil {
 			qs := strings.Join(stmtStrings(ex, qc.Body), " ")
@@ -213,4 +214,40 @@ func c14WrapperFacts(ex *factExtractor) {
 	}
 	ex.setBool("c14WrapperTransparent", ok && nCalls == 1 && nReturns == 1, true,
 		"upstreamWrapper.ExchangeContext: one unconditional call of the wrapped upstream's ExchangeContext(ctx, m) whose results are returned as they are; around it only counters (no select, channel operation, loop, lock, early return: nothing that can hold an exchange back or keep state between exchanges)")
+}
+
+// c14InstallFacts: what Forward.Exec and the closure of QuickConfigureExec do with the outcome of exchange: the
+// error is returned as it is, and otherwise the chosen reply is stored in the query context - with no condition
+// on the reply (rcode ...) or on what the context already holds.
+func c14InstallFacts(ex *factExtractor, rel string) {
+	shape := func(body *ast.BlockStmt, us string) bool {
+		if body == nil || len(body.List) != 4 {
+			return false
+		}
+		return ex.str(body.List[0]) == "r, err := f.exchange(ctx, qCtx, "+us+")" &&
+			ex.str(body.List[1]) == "if err != nil { return err }" &&
+			ex.str(body.List[2]) == "qCtx.SetResponse(r)" &&
+			ex.str(body.List[3]) == "return nil"
+	}
+	okExec, okQuick := false, false
+	if fd := ex.fn(rel, "Forward", "Exec"); fd != nil {
+		okExec = shape(fd.Body, "f.us")
+	}
+	if qc := ex.fn(rel, "Forward", "QuickConfigureExec"); qc != nil {
+		var lits []*ast.FuncLit
+		ast.Inspect(qc.Body, func(n ast.Node) bool {
+			if fl, ok := n.(*ast.FuncLit); ok {
+				lits = append(lits, fl)
+			}
+			return true
+		})
+		last := ""
+		if n := len(qc.Body.List); n > 0 {
+			last = ex.str(qc.Body.List[n-1])
+		}
+		okQuick = len(lits) == 1 && shape(lits[0].Body, "us") && last == "return execFunc, nil" &&
+			countStr(stmtStrings(ex, qc.Body), "return execFunc, nil") == 1
+	}
+	ex.setBool("c14ExecInstallsReply", okExec && okQuick, true,
+		"Forward.Exec and the executable returned by QuickConfigureExec: r, err := f.exchange(...); an error is returned as it is; otherwise qCtx.SetResponse(r) unconditionally (whatever the rcode of r and whatever response the context already holds), then nil")
 }
